@@ -227,6 +227,8 @@ func main() {
 		c02Canon()
 	case "c03exp":
 		c03Exp()
+	case "c04alone":
+		c04AloneChild()
 	default:
 		fatal("unknown mode %s", os.Args[1])
 	}
